@@ -121,6 +121,8 @@ type Decision struct {
 	Kind string `json:"k"`
 	Alt  int    `json:"a"`
 	N    int    `json:"n"`
+	Pos  string `json:"pos,omitempty"` // pre-emption decisions: source position of the visible operation
+	Hit  int    `json:"hit,omitempty"` // ... and how many times that position had been reached on this path
 }
 
 type nondetRec struct {
@@ -173,6 +175,7 @@ type Exec struct {
 	tracked   map[string]Value
 	violation *Violation
 	curSite   *ssa.Call
+	posHits   map[string]int
 	unknowns  int
 	cfg       map[string]int64
 }
@@ -316,7 +319,7 @@ func (ex *Exec) decide(kind string, n int, conds []*Term, exhaustive bool) int {
 		if alt >= n {
 			panic(pathEnd{kind: "unsupported", msg: fmt.Sprintf("prefix replay diverged at %d (%s): alt %d of %d", pos, kind, alt, n)})
 		}
-		ex.decisions = append(ex.decisions, Decision{kind, alt, n})
+		ex.decisions = append(ex.decisions, Decision{Kind: kind, Alt: alt, N: n})
 		if conds != nil {
 			ex.addPC(conds[alt])
 		}
@@ -363,7 +366,7 @@ func (ex *Exec) decide(kind string, n int, conds []*Term, exhaustive bool) int {
 		np[pos] = j
 		ex.newPrefix = append(ex.newPrefix, np)
 	}
-	ex.decisions = append(ex.decisions, Decision{kind, alt, n})
+	ex.decisions = append(ex.decisions, Decision{Kind: kind, Alt: alt, N: n})
 	if conds != nil {
 		ex.addPC(conds[alt])
 	}
@@ -388,7 +391,7 @@ func (ex *Exec) concretize(t *Term, what string) uint64 {
 	pos := len(ex.decisions)
 	if pos < len(ex.prefix) {
 		v := uint64(ex.prefix[pos]) & maskB(t.w)
-		ex.decisions = append(ex.decisions, Decision{"conc:" + what, ex.prefix[pos], -1})
+		ex.decisions = append(ex.decisions, Decision{Kind: "conc:" + what, Alt: ex.prefix[pos], N: -1})
 		ex.addPC(ex.tc.Eq(t, ex.tc.Const(t.w, v)))
 		return v
 	}
@@ -429,7 +432,7 @@ func (ex *Exec) concretize(t *Term, what string) uint64 {
 		np[pos] = int(v)
 		ex.newPrefix = append(ex.newPrefix, np)
 	}
-	ex.decisions = append(ex.decisions, Decision{"conc:" + what, int(vals[0]), -1})
+	ex.decisions = append(ex.decisions, Decision{Kind: "conc:" + what, Alt: int(vals[0]), N: -1})
 	ex.addPC(ex.tc.Eq(t, ex.tc.Const(t.w, vals[0])))
 	return vals[0]
 }
@@ -560,7 +563,7 @@ func (ex *Exec) runInit(pkg *ssa.Package) {
 	ex.cur = th
 	budget := 2000000
 	for th.state == tRunnable && len(th.frames) > 0 {
-		ex.step(th)
+		ex.lenientStep(th)
 		budget--
 		if budget == 0 {
 			break
@@ -568,6 +571,44 @@ func (ex *Exec) runInit(pkg *ssa.Package) {
 	}
 	ex.lenient--
 	ex.cur = saved
+}
+
+// lenientStep executes one step of an initializer; a construct the engine
+// cannot interpret abandons the outermost call made by the initializer and
+// gives it an opaque/zero result (recorded as a stub).
+func (ex *Exec) lenientStep(th *Thread) {
+	defer func() {
+		if r := recover(); r != nil {
+			if _, ok := r.(unsupportedErr); !ok {
+				if pe, ok := r.(pathEnd); !ok || pe.kind != "unsupported" {
+					panic(r)
+				}
+			}
+			if len(th.frames) == 0 {
+				return
+			}
+			th.frames = th.frames[:1]
+			fr := th.frames[0]
+			fr.unwinding = false
+			th.panicking = false
+			if fr.pc < len(fr.block.Instrs) {
+				in := fr.block.Instrs[fr.pc]
+				if call, ok := in.(*ssa.Call); ok {
+					ex.set(fr, call, ex.noopResult(call.Common().Signature()))
+				} else if v, ok := in.(ssa.Value); ok {
+					ex.set(fr, v, ex.zeroOrOpaque(v.Type()))
+				}
+				ex.stubsHit["lenient-init:"+fr.fn.Pkg.Pkg.Path()] = true
+				fr.pc++
+			}
+		}
+	}()
+	ex.step(th)
+}
+
+func (ex *Exec) zeroOrOpaque(t types.Type) Value {
+	defer func() { recover() }()
+	return ex.zero(t)
 }
 
 // mainLoop runs threads until the harness thread has finished.
@@ -667,16 +708,36 @@ func (ex *Exec) maybePreempt(th *Thread, what string) bool {
 	if len(others) == 0 {
 		return false
 	}
+	pos := ex.posOf(th)
+	ex.posHits[pos]++
 	alt := ex.decide("preempt:"+what, 1+len(others), nil, false)
 	if alt == 0 {
 		return false
 	}
+	d := &ex.decisions[len(ex.decisions)-1]
+	d.Pos, d.Hit = pos, ex.posHits[pos]
 	ex.preempt--
 	t := others[alt-1]
 	t.state = tRunnable
 	t.waitFn = nil
 	ex.cur = t
 	return true
+}
+
+// posOf returns file:line of the instruction the thread is about to execute.
+func (ex *Exec) posOf(th *Thread) string {
+	if len(th.frames) == 0 {
+		return ""
+	}
+	fr := th.frames[len(th.frames)-1]
+	if fr.pc >= len(fr.block.Instrs) {
+		return ""
+	}
+	p := ex.eng.prog.Fset.Position(fr.block.Instrs[fr.pc].Pos())
+	if !p.IsValid() {
+		return ""
+	}
+	return fmt.Sprintf("%s:%d", p.Filename, p.Line)
 }
 
 func (ex *Exec) reportViolation(label, msg string) {
